@@ -32,8 +32,9 @@ META = {
                   "run against real exports of generated revision trees + extraction oracle"),
     "level_text": ("The hand model of export.py / archive/*.py is proved (for every entry list, root, sub-directory) to emit "
                    "exactly the re-rooted sub-tree for tar and dir exports, to be injective on paths, to put every member under "
-                   "the root, and get_root_name/guess_format are proved for every registered extension; the zip exporter and "
-                   "the --filters path are proved to violate the statement (refuted + guarded theorems). The model is tied to "
+                   "the root, and get_root_name/guess_format are proved for every registered extension; --filters is proved to "
+                   "change file contents only; the zip exporter is proved exact for trees without symlinks and proved to violate "
+                   "the statement with them (symlink -> NAME.lnk regular file; refuted + guarded theorems). The model is tied to "
                    "the code by comparing the TarInfo/ZipInfo/file-system records of real exports with the model's, and the "
                    "property itself is evaluated by extracting every archive and comparing with the generated tree."),
     "level_note": ("Trusted: Coq kernel, vm_compute, the hand model's correspondence on the generated cases, Python "
@@ -61,16 +62,11 @@ FORMATS = ["dir", "tar", "tgz", "tbz2", "txz", "tlzma", "zip"]
 COQ_FMT = {"dir": "FDir", "tar": "FTar", "tgz": "FTgz", "tbz2": "FTbz2", "txz": "FTxz", "tlzma": "FTlzma", "zip": "FZip"}
 EXT_TABLE = [(".tar", "tar"), (".tar.gz", "tgz"), (".tgz", "tgz"), (".tar.bz2", "tbz2"), (".tbz2", "tbz2"),
              (".tar.lzma", "tlzma"), (".tar.xz", "txz"), (".zip", "zip")]
+# still-known finding -> oracle class.  (Repaired and therefore no longer excused: C42-zip-exec-bit-dropped 552504a,
+# C42-filtered-symlink-crash / C42-filtered-timestamps-crash / C42-filtered-exports-special cf2f70e.)
 FINDINGS = {
     "C42-zip-symlink-as-lnk": "zip-symlink",
-    "C42-zip-exec-bit-dropped": "zip-exec",
-    "C42-filtered-symlink-crash": "filtered-symlink",
-    "C42-filtered-timestamps-crash": "filtered-timestamps",
-    "C42-filtered-exports-special": "filtered-special",
 }
-# self-test aid ONLY (mutation runs before the maintainer has added the entries to known_findings.json):
-# comma separated finding ids whose class the oracle drops.  Never set in a normal check.
-_ASSUME = [FINDINGS[x] for x in os.environ.get("VERIF_C42_TREAT_AS_KNOWN", "").split(",") if x in FINDINGS]
 
 _state = {"n": 0, "trees": {}, "order": []}
 _side = {}
@@ -560,14 +556,6 @@ def _classes(inp, obs):
             if not side.get("pre_unchanged"):
                 return [("refused-but-changed", "export to a non-empty directory raised but changed the directory")]
             return []
-        if e == "NotImplementedError" and inp["filtered"]:
-            msg = side.get("errmsg", "")
-            if "get_symlink_target" in msg:
-                return [("filtered-symlink", "export --filters of a tree containing a symlink raises NotImplementedError "
-                         "(ContentFilterTree.get_symlink_target)")]
-            if ("get_file_mtime" in msg or (fmt == "tgz" and "is_versioned" in msg)) and inp["pft"]:
-                return [("filtered-timestamps", "export --filters --per-file-timestamps raises NotImplementedError "
-                         "(ContentFilterTree.get_file_mtime)")]
         return [("error", f"export raised {e}: {side.get('errmsg')}")]
     if inp.get("pre") == "nonempty" and fmt == "dir":
         return [("not-refused", "export into a non-empty directory did not raise")]
@@ -605,20 +593,6 @@ def _classes(inp, obs):
             if e is not None and p.endswith(".lnk") and exp.get(p[:-4], (None,))[0] == "l":
                 out.append(("zip-symlink", f"file {p!r} collides with the .lnk file of symlink {p[:-4]!r}"))
                 continue
-            if e is not None and g is not None and e[0] == "f" and e[2] and not g[2] and (e[0], e[1], e[3]) == (g[0], g[1], g[3]):
-                out.append(("zip-exec", f"executable bit of {p!r} dropped by the zip exporter"))
-                continue
-        if e is None and inp["filtered"]:
-            # which tree path would this be?
-            rel = p.split("/")[len(rootc):] if p.split("/")[:len(rootc)] == rootc else None
-            if rel:
-                sd = (inp["subdir"] or "").rstrip("/")
-                tp = (sd + "/" if sd else "") + "/".join(rel)
-                if sd in nodes and nodes[sd][0] != "d":
-                    tp = sd
-                if tp in nodes and tp.split("/")[0].startswith(".bzr") and g[:4] == _node_filtered(nodes[tp]):
-                    out.append(("filtered-special", f"control file {tp!r} exported with --filters but not without"))
-                    continue
         out.append(("mismatch", f"{p!r}: expected {_short(e)}, exported {_short(g)}"))
     # time stamps: per-file = time of the revision that last changed the entry; otherwise the revision's time
     mt = side.get("mtimes", {})
@@ -649,7 +623,6 @@ def _short(n):
 
 def oracle(inp, obs):
     cl = _classes(inp, obs)
-    cl = [c for c in cl if c[0] not in _ASSUME]
     if not cl:
         return None
     names = sorted({c[0] for c in cl})
@@ -670,14 +643,6 @@ def finding_matches(fid, inp, obs, why):
     kinds = {e[1] for e in inp["tree"]}
     if cls == "zip-symlink":
         return fmt == "zip" and "l" in kinds
-    if cls == "zip-exec":
-        return fmt == "zip" and any(e[1] == "f" and e[3] for e in inp["tree"])
-    if cls == "filtered-symlink":
-        return bool(inp["filtered"]) and "l" in kinds
-    if cls == "filtered-timestamps":
-        return bool(inp["filtered"]) and bool(inp["pft"])
-    if cls == "filtered-special":
-        return bool(inp["filtered"]) and any(e[0].startswith(".bzr") for e in inp["tree"])
     return False
 
 
@@ -850,10 +815,8 @@ def cases(rng, tier):
     for ti in range(ntrees):
         tree = gen_tree(rng, nmax=rng.choice([3, 6, 10, 14]), big_ok=(ti % 5 == 0))
         plain = ti % 3 == 0
-        if plain:   # no finding class applies: these cases exercise the tie and the oracle with zip / filters
-            tree = [e for e in tree if e[1] != "l" and not e[0].startswith(".bzr")]
-            for e in tree:
-                e[3] = False
+        if plain:   # no symlinks: the zip-symlink finding cannot mask anything else in these cases
+            tree = [e for e in tree if e[1] != "l"]
             if not tree:
                 tree = [["f.txt", "f", [[97, 2], [10, 1]], False, "", 1]]
         sds = _subdirs_for(tree, rng)
@@ -868,10 +831,8 @@ def cases(rng, tier):
                 f2 = fmt
             root = rng.choice(ROOTS)
             sd = rng.choice(sds)
-            filtered = rng.random() < (0.45 if plain else 0.2)
-            pft = rng.random() < (0.2 if filtered and not plain else 0.45)
-            if filtered and plain and rng.random() < 0.7:
-                pft = False
+            filtered = rng.random() < 0.35
+            pft = rng.random() < 0.45
             via = "api"
             if rng.random() < 0.25 and (sd is None or (sd and not sd.startswith("/") and "//" not in sd
                                                       and not sd.startswith(".") and ".." not in sd)):
